@@ -1,6 +1,6 @@
 (* C07 — object identity is unique and every reference resolves in its logical file. Statements only. *)
 From DV Require Import Model.ApiDispatch Proofs.BuilderP Proofs.PrimP.
-From DV Require Import Model.EflrReader Proofs.EflrP Proofs.FileP.
+From DV Require Import Model.EflrReader Proofs.EflrP Proofs.FileP Proofs.RegP Proofs.CoverP.
 
 (* in every reachable state, within a set (one set type, one set name), objects are told apart by name and copy number:
    same-named objects of one type get distinct copy numbers, for every order of add_* calls, including rejected ones *)
@@ -46,8 +46,21 @@ Example C07_refuted_named_sets :
   ident_of st 0 = ident_of st 1 /\ i_set (item_at st 0) <> i_set (item_at st 1).
 Proof. vm_compute. split; [reflexivity | discriminate]. Qed.
 
+(* across the sets a logical file writes: when the logical file holds at most one set per object type (no two sets of one
+   type under different set names — that configuration is known finding D13, witnessed below), (type, name, copy number)
+   identifies an object among ALL the objects of the logical file, in every reachable state *)
+Theorem C07_identity_in_logical_file : forall ops ps f,
+  let st := bstate_of (run_ops ps b_init ops) in
+  NoDup (map (fun sid => s_ty (set_at st sid)) (lf_sids f)) ->
+  forall sid1 sid2 i j, In sid1 (lf_sids f) -> In sid2 (lf_sids f) ->
+    In i (s_items (set_at st sid1)) -> In j (s_items (set_at st sid2)) ->
+    (i_ty (item_at st i), i_name (item_at st i), i_copy (item_at st i)) = (i_ty (item_at st j), i_name (item_at st j), i_copy (item_at st j)) ->
+    i = j.
+Proof. exact identity_unique_in_lf. Qed.
+
 Print Assumptions C07_identity_in_set.
 Print Assumptions C07_copy_numbers.
 Print Assumptions C07_reference_roundtrip.
 Print Assumptions C07_reference_is_identity.
 Print Assumptions C07_write_keeps_identities.
+Print Assumptions C07_identity_in_logical_file.
